@@ -151,6 +151,18 @@ def iter_index(shape, order):
             yield tuple(ii[io] for io in aorder)
 
 
+def _as_object_array(value, shape):
+    """nested sequences -> object array of exactly the given rank (np.asarray
+    would also descend into items that are sequences themselves)"""
+    out = np.empty(shape, dtype=object)
+    for idx in np.ndindex(*shape):
+        item = value
+        for ii in idx:
+            item = item[ii]
+        out[idx] = item
+    return out
+
+
 def mk_order(order, shape):
     if order == "C":
         return list(range(len(shape)))
@@ -399,7 +411,7 @@ class Array(metaclass=MetaArray):
                 if hasattr(value, "shape") or hasattr(value, "_shape"):
                     items_of = value
                 else:  # nested lists cannot be indexed with a tuple
-                    items_of = np.asarray(value, dtype=object)
+                    items_of = _as_object_array(value, shape)
                 for idx in iter_index(shape, order):
                     extra[idx] = cls._itemtype._inspect_args(items_of[idx])
                     offsets[idx] = offset
@@ -519,7 +531,7 @@ class Array(metaclass=MetaArray):
                         )
         else:  # there is a value for initialization
             if not hasattr(value, "shape"):  # not nplike
-                value = np.asarray(value, dtype=object)
+                value = _as_object_array(value, info.shape)
             if cls._is_static_type:
                 ioffset = offset + cls._data_offset
                 for idx in iter_index(info.shape, cls._order):
